@@ -92,7 +92,7 @@ func C03(c *core.Ctx) {
 	work := c.WorkDir()
 	defer os.RemoveAll(work)
 	idx := 0
-	for round := 0; round < c.Pick(1, 5); round++ {
+	for round := 0; round < c.Pick(2, 5); round++ {
 		for _, v := range []int{0, 1, 3, 4, 7, 9} {
 			idx++
 			hr := HistRun{Variant: v, Sched: commitDelays, NKeys: 10,
